@@ -15,3 +15,10 @@ CHECKS = {
         note="Assumes callees/hooks are balanced and that exceptions escaping expand() are out of scope; trusts the AST encoder (vf/astpaths.py), z3, CrossHair.",
     ),
 }
+CHECKS["C14"] = dict(
+    engine="E1 CrossHair on AST slices; E2 z3 regex",
+    technique="CrossHair symbolic execution of the three real argument-shaping code fragments (two AST-sliced from the current source) on skeleton strings with symbolic characters; z3 regular-language equality of the three classification rules (no length bound)",
+    text="For every single argument up to the length bound and every 2(3)-argument list from the skeleton family, the parsed node's map, the expander's map and the Lua frame's map are equal (keys, key types, values): confirmed over all paths. The named/positional classification is proved equal as regular languages for unbounded length. Two recorded findings (regions excluded, concrete instances replayed each run).",
+    design_ref="DESIGN.md 3 C14",
+    note="The Lua accessor's trim is modelled (pattern re-read from the Lua file) rather than executed; values are plain text; replays through parse/expand/#invoke use a stub for the absent ustring submodule.",
+)
